@@ -79,7 +79,9 @@ type Instance struct {
 	Dead      bool
 	Closed    bool
 	OnSign    func(keyName string, root []byte)
-	sched     *Sched
+	// OnStoreDone is called synchronously on the goroutine whose storage operation is returning.
+	OnStoreDone func(op string)
+	sched       *Sched
 }
 
 // NewInstance opens a Dirk stack on cfg.Dir.
